@@ -196,7 +196,7 @@ def run_case(rec, spec, variant, rng, oracles=("C01", "C02", "C05", "C06", "C12"
             return
         ndc = sum(e - s for s, e, k, _ in spansr if k in rc.DONTCARE)
         for j in range(scr_k):
-            mode = ["random", "ff", "text", "smallint"][(j + rec.evaluations) % 4]
+            mode = ["random", "ff", "text", "smallint", "floats"][(j + rec.evaluations) % 5]
             xs = rc.scramble(xr, spansr, rng, mode)
             rec.count("c12:dontcare-bytes-scrambled", ndc)
             try:
